@@ -1194,3 +1194,264 @@ Proof.
   unfold run. revert g; induction ops as [|o ops IH]; simpl; intros g H; auto.
   apply IH. apply step_depot_set; auto.
 Qed.
+
+(* ================================================================== *)
+(** * 10. The right-hand side is all ones *)
+
+(* only the depot at the first / last position is ever fixed to a non-zero value, and those tuples
+   occur in no constraint row: "moving fixed values to the right-hand side" never changes b *)
+Lemma fixed_val_nonzero I v s n :
+  fixed_val I (v, s, n) <> 0 -> n = 0%nat /\ (s = 0%nat \/ S s = iL I).
+Proof.
+  unfold fixed_val. destruct (fixed I (v, s, n)) as [z|] eqn:E; [|congruence].
+  apply fixed_Some in E. destruct E as (_ & _ & _ & Hr). apply rule_value in Hr.
+  destruct Hr as [[_ (Hn & Hp)] | [-> _]]; [|congruence]. intros _. split; auto. tauto.
+Qed.
+
+Lemma bvec_all_ones I r : (r < num_rows I)%nat -> bvec I r = 1.
+Proof.
+  intros Hr. unfold bvec.
+  assert (H : Forall (fun ts => row_rhs I ts = 1) (rows I)).
+  { apply rows_Forall. split.
+    - intros ni H1 HN. unfold row_rhs. rewrite lsum_zero; [lia|].
+      intros [[v s] n] Hin. unfold cust_row in Hin. apply in_flat_map in Hin.
+      destruct Hin as (s' & _ & Hin). apply in_map_iff in Hin. destruct Hin as (v' & E & _).
+      inversion E; subst; clear E.
+      match goal with |- match var_index I ?t with _ => _ end = 0 =>
+        destruct (var_index I t); auto; destruct (Z.eq_dec (fixed_val I t) 0) as [|Hne]; auto;
+        apply fixed_val_nonzero in Hne; lia end.
+    - intros s v H1 HL Hv. unfold row_rhs. rewrite lsum_zero; [lia|].
+      intros [[v' s'] n] Hin. unfold pos_row in Hin. apply in_map_iff in Hin.
+      destruct Hin as (n' & E & _). inversion E; subst; clear E.
+      match goal with |- match var_index I ?t with _ => _ end = 0 =>
+        destruct (var_index I t); auto; destruct (Z.eq_dec (fixed_val I t) 0) as [|Hne]; auto;
+        apply fixed_val_nonzero in Hne; lia end. }
+  unfold num_rows in Hr. apply (proj1 (Forall_nth _ _) H r [] Hr).
+Qed.
+
+(* ================================================================== *)
+(** * 11. Representability: routes padded with depot stays *)
+
+Fixpoint chain (I : inst) (l : list nat) : Prop :=
+  match l with
+  | a :: ((b :: _) as tl) => is_arc I a b /\ chain I tl
+  | _ => True
+  end.
+
+(* a route: customers only, depot -> first, consecutive, last -> depot are arcs, fits into L positions *)
+Definition valid_route (I : inst) (r : list nat) : Prop :=
+  (forall c, In c r -> (1 <= c)%nat /\ (c < iN I)%nat) /\
+  chain I (O :: r ++ [O]) /\ (length r + 2 <= iL I)%nat.
+
+Lemma chain_nth I l s :
+  chain I l -> (S s < length l)%nat -> is_arc I (nth s l O) (nth (S s) l O).
+Proof.
+  revert s; induction l as [|a l IH]; intros s Hc Hs; [simpl in Hs; lia|].
+  destruct l as [|b l]; [simpl in Hs; lia|].
+  destruct Hc as [Hab Hc]. destruct s as [|s]; [exact Hab|].
+  apply (IH s Hc). simpl in *. lia.
+Qed.
+
+Lemma nth_app_default {T} (l : list T) d s : nth s (l ++ [d]) d = nth s l d.
+Proof.
+  revert s; induction l as [|a l IH]; intros s; simpl.
+  - destruct s as [|[|s]]; reflexivity.
+  - destruct s; auto.
+Qed.
+
+Lemma count_nth (l : list nat) (L n : nat) :
+  n <> 0%nat -> (length l <= L)%nat ->
+  lsum (seq 0 L) (fun s => if Nat.eqb (nth s l O) n then 1 else 0) =
+  Z.of_nat (count_occ Nat.eq_dec l n).
+Proof.
+  intros Hn. revert L; induction l as [|a l IH]; intros L HL.
+  - simpl count_occ. apply lsum_zero. intros s _.
+    replace (nth s [] O) with O by (destruct s; reflexivity).
+    destruct (Nat.eqb_spec 0 n); [congruence | reflexivity].
+  - destruct L as [|L]; [simpl in HL; lia|].
+    change (seq 0 (S L)) with (0%nat :: seq 1 L). rewrite <- seq_shift, lsum_cons, lsum_map.
+    cbn [nth]. rewrite IH by (simpl in HL; lia).
+    simpl count_occ. destruct (Nat.eq_dec a n) as [->|Hne].
+    + rewrite Nat.eqb_refl. lia.
+    + destruct (Nat.eqb_spec a n); [congruence|lia].
+Qed.
+
+Lemma count_routes (routes : list (list nat)) (V n : nat) :
+  (length routes <= V)%nat ->
+  lsum (seq 0 V) (fun v => Z.of_nat (count_occ Nat.eq_dec (nth v routes []) n)) =
+  Z.of_nat (count_occ Nat.eq_dec (concat routes) n).
+Proof.
+  revert V; induction routes as [|r rs IH]; intros V HV.
+  - simpl. apply lsum_zero. intros v _. destruct v; reflexivity.
+  - destruct V as [|V]; [simpl in HV; lia|].
+    change (seq 0 (S V)) with (0%nat :: seq 1 V). rewrite <- seq_shift, lsum_cons, lsum_map.
+    cbn [nth concat]. rewrite IH by (simpl in HV; lia). rewrite count_occ_app. lia.
+Qed.
+
+Theorem pad_walks_assignment I routes :
+  seq_ok I -> (2 <= iL I)%nat -> (length routes <= iV I)%nat ->
+  Forall (valid_route I) routes ->
+  (forall n, (1 <= n)%nat -> (n < iN I)%nat -> count_occ Nat.eq_dec (concat routes) n = 1%nat) ->
+  walk_assignment I (pad_walks routes).
+Proof.
+  intros (_ & H00 & HN) HL HV Hval Hcov.
+  assert (Hr : forall v, valid_route I (nth v routes [])).
+  { intros v. destruct (lt_dec v (length routes)) as [Hlt|Hge].
+    - apply Forall_nth; auto.
+    - rewrite nth_overflow by lia. split; [intros ? []|]. split; [simpl; auto | simpl; lia]. }
+  constructor; unfold pad_walks.
+  - intros v s _ _. destruct (Hr v) as (Hc & _ & _).
+    destruct (nth_in_or_default s (O :: nth v routes []) O) as [Hin | ->]; [|lia].
+    destruct Hin as [<-|Hin]; [lia|]. apply Hc; auto.
+  - reflexivity.
+  - intros v _. destruct (Hr v) as (_ & _ & Hlen). apply nth_overflow. simpl. lia.
+  - intros v s _ Hs. destruct (Hr v) as (_ & Hch & Hlen).
+    set (r := nth v routes []) in *. apply check_arc_iff.
+    destruct (lt_dec (S s) (length (O :: r ++ [O]))) as [Hlt|Hge].
+    + pose proof (chain_nth I (O :: r ++ [O]) s Hch Hlt) as Ha.
+      change (O :: r ++ [O]) with ((O :: r) ++ [O]) in Ha. rewrite !nth_app_default in Ha. exact Ha.
+    + simpl in Hge. rewrite app_length in Hge. simpl in Hge.
+      rewrite !(nth_overflow (O :: r)) by (simpl; lia). exact H00.
+  - intros v s _ Hs1 _ H0. destruct (Hr v) as (Hc & _ & _).
+    set (r := nth v routes []) in *. destruct s as [|s]; [lia|]. cbn [nth] in *.
+    destruct (lt_dec s (length r)) as [Hlt|Hge].
+    + assert (In (nth s r O) r) by (apply nth_In; auto). apply Hc in H. lia.
+    + apply nth_overflow. lia.
+  - intros n Hn1 HnN. unfold hits. rewrite zsum_lsum.
+    transitivity (Z.of_nat (count_occ Nat.eq_dec (concat routes) n)); [|rewrite (Hcov n Hn1 HnN); reflexivity].
+    rewrite <- (count_routes routes (iV I) n HV).
+    apply lsum_ext. intros v _. rewrite zsum_lsum.
+    destruct (Hr v) as (_ & _ & Hlen).
+    rewrite (count_nth (O :: nth v routes []) (iL I) n) by (simpl; lia).
+    rewrite count_occ_cons_neq by lia. reflexivity.
+Qed.
+
+(* ================================================================== *)
+(** * 12. Strict mode: every walk meets the time windows *)
+
+Definition gnode (g : graph) (n : nat) : node := nth n (nodes g) dummy_node.
+
+(* what the strict add_arc guarantees for the stored arcs when the depot was node 0 all along:
+   customer origin: window END + travel time <= destination window end;
+   depot origin: window start + travel time <= destination window end;
+   the depot self-arc (travel time 0 as set_depot stores it) keeps a waiting vehicle inside the depot window *)
+Definition strict_graph (g : graph) : Prop :=
+  forall i j a, In ((i, j), a) (arcs g) ->
+    (i <> 0%nat -> ext_le (ext_add (nhi (gnode g i)) (att a)) (nhi (gnode g j))) /\
+    (i = 0%nat -> ext_le (Fin (nlo (gnode g 0) + att a)) (nhi (gnode g j))) /\
+    (i = 0%nat -> j = 0%nat -> ext_le (ext_add (nhi (gnode g 0)) (att a)) (nhi (gnode g 0))).
+
+Definition windows_ok (g : graph) : Prop :=
+  forall n, (n < length (nodes g))%nat -> ext_le (Fin (nlo (gnode g n))) (nhi (gnode g n)).
+
+(* boolean version, for concrete instances *)
+Definition strict_graphb (g : graph) : bool :=
+  forallb (fun kv =>
+    match kv with
+    | ((i, j), a) =>
+        (if Nat.eqb i 0
+         then ext_leb (Fin (nlo (gnode g 0) + att a)) (nhi (gnode g j)) &&
+              (if Nat.eqb j 0 then ext_leb (ext_add (nhi (gnode g 0)) (att a)) (nhi (gnode g 0)) else true)
+         else ext_leb (ext_add (nhi (gnode g i)) (att a)) (nhi (gnode g j)))
+    end) (arcs g).
+
+Lemma strict_graphb_true g : strict_graphb g = true -> strict_graph g.
+Proof.
+  unfold strict_graphb, strict_graph. rewrite forallb_forall. intros H i j a Hin.
+  specialize (H _ Hin). cbn beta iota in H.
+  destruct (Nat.eqb_spec i 0) as [Ei|Ei].
+  - apply andb_true_iff in H. destruct H as [H1 H2]. repeat split; try congruence.
+    + intros _. apply ext_leb_le. exact H1.
+    + intros _ Ej. destruct (Nat.eqb_spec j 0); [|congruence]. apply ext_leb_le. exact H2.
+  - repeat split; try congruence. intros _. apply ext_leb_le. exact H.
+Qed.
+
+Definition windows_okb (g : graph) : bool :=
+  forallb (fun n => ext_leb (Fin (nlo n)) (nhi n)) (nodes g).
+
+Lemma windows_okb_true g : windows_okb g = true -> windows_ok g.
+Proof.
+  unfold windows_okb, windows_ok. rewrite forallb_forall. intros H n Hn.
+  apply ext_leb_le. apply H. apply nth_In. exact Hn.
+Qed.
+
+Lemma ext_step T h t h' : ext_le (Fin T) h -> ext_le (ext_add h t) h' -> ext_le (Fin (T + t)) h'.
+Proof. destruct h, h'; unfold ext_le, ext_add; simpl; intros; auto; try lia; tauto. Qed.
+
+Lemma ext_max a c h : ext_le (Fin a) h -> ext_le (Fin c) h -> ext_le (Fin (Z.max a c)) h.
+Proof. destruct h; unfold ext_le; simpl; intros; auto; lia. Qed.
+
+Lemma dict_get_In {U} k (d : dict U) a : dict_get k d = Some a -> In (k, a) d.
+Proof.
+  induction d as [|[k' v'] d IH]; simpl; [discriminate|].
+  destruct (natpair_eqb k k') eqn:E.
+  - apply natpair_eqb_eq in E; subst. intros H; inversion H; auto.
+  - auto.
+Qed.
+
+Theorem strict_time I W v :
+  strict_graph (ig I) -> windows_ok (ig I) -> walk_assignment I W -> (v < iV I)%nat ->
+  forall s, (s < iL I)%nat ->
+    nlo (node_at I (W v s)) <= arrival I (W v) s /\
+    ext_le (Fin (arrival I (W v) s)) (nhi (node_at I (W v s))).
+Proof.
+  intros Hst Hwin HW Hv. induction s as [|s IH]; intros Hs.
+  - cbn [arrival]. split; [lia|]. apply Hwin. apply (wa_node I W HW); auto.
+  - destruct (IH ltac:(lia)) as [_ IH2]. cbn [arrival]. split; [apply Z.le_max_l|].
+    apply ext_max; [apply Hwin; apply (wa_node I W HW); auto|].
+    pose proof (wa_is_arc I W v s HW Hv Hs) as Ha. apply check_arc_iff in Ha.
+    unfold check_arc, dict_mem in Ha. unfold tt.
+    destruct (dict_get (W v s, W v (S s)) (arcs (ig I))) as [a|] eqn:Eg; [|discriminate].
+    apply dict_get_In in Eg. destruct (Hst _ _ _ Eg) as (C1 & C2 & C3).
+    unfold node_at in *. fold (gnode (ig I)) in *.
+    destruct (Nat.eq_dec (W v s) 0) as [E0|E0].
+    + destruct s as [|s].
+      * cbn [arrival]. rewrite E0.
+        destruct (Nat.eq_dec (W v 1%nat) 0) as [E1|E1].
+        -- rewrite E1. eapply ext_step; [|apply C3; auto]. apply Hwin.
+           pose proof (wa_node I W HW v 0 Hv ltac:(lia)). unfold iN in H. lia.
+        -- apply C2; auto.
+      * assert (E1 : W v (S (S s)) = 0%nat) by (apply (wa_absorb I W HW); auto; lia).
+        rewrite E1. eapply ext_step; [|apply C3; auto]. rewrite E0 in IH2. exact IH2.
+    + eapply ext_step; [exact IH2 | apply C1; auto].
+Qed.
+
+(* the strict add_arc keeps the guarantee (the depot self-arc may only be overwritten with a travel
+   time that keeps a waiting vehicle inside the depot window) *)
+Lemma strict_graph_add_arc g o d tm c g' b :
+  strict_graph g -> add_arc_gen true g o d tm c = Ok (g', b) ->
+  (index_of o (names g) = Some 0%nat -> index_of d (names g) = Some 0%nat ->
+   ext_le (ext_add (nhi (gnode g 0)) tm) (nhi (gnode g 0))) ->
+  strict_graph g'.
+Proof.
+  intros Hst H Hself. unfold add_arc_gen in H.
+  destruct (index_of o (names g)) as [i|] eqn:Ei; [|discriminate].
+  destruct (index_of d (names g)) as [j|] eqn:Ej; [|discriminate].
+  match type of H with context [if ?p then Ok _ else Ok _] => destruct p eqn:Ep end;
+    inversion H; subst g' b; clear H; [|exact Hst].
+  intros i' j' a Hin. cbn [arcs] in Hin. apply dict_set_In in Hin.
+  unfold gnode. cbn [nodes]. fold (gnode g).
+  destruct Hin as [E|Hin]; [|apply Hst; auto].
+  inversion E; subst i' j' a; clear E. cbn [att].
+  destruct (Nat.eqb_spec i 0) as [E0|E0]; cbn [andb negb] in Ep.
+  - subst i. repeat split; try congruence.
+    + intros _. unfold base_filter in Ep. apply ext_leb_le in Ep. exact Ep.
+    + intros _ ->. apply Hself; auto.
+  - repeat split; try congruence. intros _. unfold strict_filter in Ep. apply ext_leb_le in Ep. exact Ep.
+Qed.
+
+(* set_depot on the node that already is the depot only (re)stores the self-arc with travel time 0 *)
+Lemma strict_graph_set_depot_same g nm g' :
+  strict_graph g -> windows_ok g -> (0 < length (nodes g))%nat ->
+  index_of nm (names g) = Some 0%nat -> seq_set_depot g nm = Ok g' -> strict_graph g'.
+Proof.
+  intros Hst Hwin HN Hi H. unfold seq_set_depot, set_depot in H. rewrite Hi in H.
+  inversion H; subst g'; clear H.
+  intros i j a Hin. cbn [arcs] in Hin. apply dict_set_In in Hin.
+  unfold gnode. cbn [nodes]. fold (gnode g).
+  destruct Hin as [E|Hin]; [|apply Hst; auto].
+  inversion E; subst i j a; clear E. cbn [att].
+  repeat split; try congruence; intros _.
+  - rewrite Z.add_0_r. apply Hwin. exact HN.
+  - intros _. destruct (nhi (gnode g 0)); unfold ext_le, ext_add; simpl; auto; lia.
+Qed.
